@@ -105,8 +105,12 @@ func H_C02_session() {
 	if vBool("wrong_node") {
 		node = "other.test"
 	}
+	sent := pdrs
+	if vBool("downlink_pdr_first") {
+		sent = []vPDRSpec{pdrs[1], pdrs[0]} // the order of the Create PDR IEs is the CP's choice
+	}
 	before := len(e.conn.writes)
-	e.vSend(vEstablishment(seq, cp, node, pdrs, fars, qers))
+	e.vSend(vEstablishment(seq, cp, node, sent, fars, qers))
 	r := e.vExpectReply("est", before, message.MsgTypeSessionEstablishmentResponse, seq).(*message.SessionEstablishmentResponse)
 	c := vCauseOf(r.Cause)
 	vObserve("est", c, len(e.dp.msgs))
